@@ -164,6 +164,13 @@ def install_shared(d):
     return ch1 or ch2
 
 
+def _tool_flags():
+    """quick: the module from source, dependencies from export data (default mode of the translator, ~5x less CPU);
+    thorough: -full, every dependency type-checked and SSA-built from source (the extra precision is the set of
+    types that only dependency code converts to interfaces, see the comment at packages.Load in the translator)"""
+    return ["-full"] if _state.get("tier") == "thorough" else []
+
+
 def regenerate():
     """runs the translator on VERIF_REPO (or finds its result in the cache) and decides where the table goes:
 
@@ -178,6 +185,7 @@ def regenerate():
     if "regen" in _state:
         return _state["regen"]
     key, nfiles = _source_hash()
+    key += "-full" if _tool_flags() else ""
     d = os.path.join(CACHE, key)
     hit = all(os.path.exists(os.path.join(d, n)) for n in ("Effects.v", "EffectsOk.v", "effects.json"))
     if not hit:
@@ -188,7 +196,7 @@ def regenerate():
             return res
         tmp = d + ".part%d" % os.getpid()
         os.makedirs(tmp, exist_ok=True)
-        rc, o = vf.sh([binp, "-repo", vf.REPO, "-out", tmp, "-json", os.path.join(tmp, "effects.json")],
+        rc, o = vf.sh([binp] + _tool_flags() + ["-repo", vf.REPO, "-out", tmp, "-json", os.path.join(tmp, "effects.json")],
                       env=vf.GOENV, timeout=900)
         if rc != 0:
             shutil.rmtree(tmp, ignore_errors=True)
@@ -199,7 +207,7 @@ def regenerate():
         os.replace(tmp, d)
         # keep the cache small
         olds = sorted((os.path.getmtime(os.path.join(CACHE, x)), x) for x in os.listdir(CACHE))
-        for _, x in olds[:-6]:
+        for _, x in olds[:-8]:
             shutil.rmtree(os.path.join(CACHE, x), ignore_errors=True)
     rows = json.load(open(os.path.join(d, "effects.json")))["rows"]
     neff = sum(len(m.get("effects") or []) for r in rows for m in r["methods"])
@@ -265,11 +273,54 @@ def offending(rows):
     return out
 
 
+def _prefetch(P, tier, seed):
+    """the Go side of the streams does not depend on the effect table: build and run both drivers in the
+    background while the translator runs and the proofs build.  Returns (results, threads)."""
+    import threading
+    res, threads = {}, []
+    ov = vf.overlay_for(PID, OVERLAY)  # written once, before any `go` process reads it
+    for st in P["streams"]:
+        n = st["n_quick"] if tier == "quick" else st["n_thorough"]
+
+        def work(st=st, n=n):
+            env = {"VERIF_SEED": seed, "VERIF_N": n, "VERIF_TIER": tier}
+            env.update(st.get("env", {}))
+            rc, out, obs_path = vf.go_run_driver(PID, st["pkg"], st["test"], ov, env=env, race=st.get("race", False),
+                                                 timeout=st.get("timeout", 1800), tag=st["name"])
+            res[(st["name"], tier, seed, n)] = (rc, out, vf.read_obs(obs_path))
+
+        th = threading.Thread(target=work, daemon=True)
+        th.start()
+        threads.append(th)
+    return res, threads
+
+
 def custom(P, tier, seed, replay):
+    _state["tier"] = tier
+    pre, threads = ({}, [])
+    if not replay and not os.environ.get("VERIF_C17_SERIAL"):
+        pre, threads = _prefetch(P, tier, seed)
     ok, msg, rows = regenerate()
     bad = offending(rows) if ok else []
     if ok and not bad:
-        return runner.run_property(P, tier, seed, replay)
+        orig = runner.run_stream
+
+        def run_stream(pid, st, tier_, seed_, n, only=None, tag=None):
+            k = (st["name"], tier_, seed_, n)
+            if only is None and tag is None and threads:
+                for th in threads:
+                    th.join()
+                if k in pre:
+                    return pre.pop(k)
+            return orig(pid, st, tier_, seed_, n, only=only, tag=tag)
+
+        runner.run_stream = run_stream
+        try:
+            return runner.run_property(P, tier, seed, replay)
+        finally:
+            runner.run_stream = orig
+    for th in threads:
+        th.join()
     if not ok:
         rep = vf.Report(PID, tier, seed)
         rep.obligation("generate:gen_effects_table", False)
@@ -380,7 +431,7 @@ P = {
     "extra_coverage": extra_coverage,
     "streams": [{
         "name": "variants", "pkg": "./internal/rules/mechanisms", "test": "TestVerifC17", "overlay": OVERLAY,
-        "eval_module": "Run.Eval_C17", "check_term": "check", "n_quick": 900, "n_thorough": 12000, "shard": 150,
+        "eval_module": "Run.Eval_C17", "check_term": "check", "n_quick": 800, "n_thorough": 12000, "shard": 100,
         "findings": {},
     }, {
         "name": "race", "pkg": "./internal/rules/mechanisms", "test": "TestVerifC17Race", "overlay": OVERLAY,
@@ -426,7 +477,7 @@ P = {
                   "(prototype and earlier variants unchanged), no two accesses conflict (race free), and every instance shows exactly its "
                   "prototype's catalogue configuration overlaid with its own overrides, independent of history; instantiated with the effect "
                   "table REGENERATED from the current source on every run (`Example effects_read_only` by vm_compute). Tied to the real "
-                  "mechanisms by ~900 (quick) / 12000 (thorough) deep-hash + behaviour histories in all creation orders and a 16-goroutine "
+                  "mechanisms by ~800 (quick) / 12000 (thorough) deep-hash + behaviour histories in all creation orders and a 16-goroutine "
                   "-race stream, covering all 19 mechanism types.",
     "level_note": "PARTIAL: soundness of the SSA effect extraction is trusted (it over-approximates; unknown callees on receiver-derived "
                   "pointers count as writes unless whitelisted with a reason). Trusted further: Coq kernel/vm_compute; the cell abstraction of "
